@@ -1,9 +1,15 @@
 (* C05 — syntax errors point at the first offending character. Statements only.
    Token level (all strings): a reported Character(i) is the highest inspected position, and the reported positions
    agree with the specification tries of the documented families (which report the first position where no member
-   of the family can continue).  Driver level: decided by evaluating the viable-prefix specification
-   (Spec/Grammar.v) on the implementation's verdicts; not yet a theorem. *)
+   of the family can continue).  Whole reader, all strings: the cursor is the first non-viable prefix of the
+   declarative grammar of Spec/Lang.v; the viable-prefix recogniser of Spec/Grammar.v is still evaluated on the
+   implementation's verdicts on every run. *)
 From Coq Require Import List NArith Bool.
+Require P.Proofs.LangFinal.
+Require Import P.Spec.Lang P.Model.Base P.Model.Reader.
+Strategy opaque [P.Generated.Trees.tree_symbol P.Generated.Trees.tree_organic P.Generated.Trees.tree_configuration
+  P.Generated.Trees.tree_charge P.Generated.Trees.tree_bond P.Generated.Trees.tree_rnum P.Generated.Trees.tree_hcount
+  P.Generated.Trees.tree_isotope P.Generated.Trees.tree_map].
 Require Import P.Generated.Enums P.Meta.Scan P.Spec.Values P.Spec.Reading P.Generated.Trees P.Checks.Reading_defs P.Proofs.TokenSafe P.Proofs.Reading.
 
 Theorem C05_reported_index_is_last_inspected_position :
@@ -24,5 +30,16 @@ Proof.
   exact (conj symbol_as_documented (conj configuration_as_documented (conj charge_as_documented (conj rnum_as_documented map_as_documented)))).
 Qed.
 
+(* ---- the whole reader, every string: Character(i) is reported exactly at the first character that makes the prefix
+   non-viable (no continuation of the first i+1 characters is a sentence, while the first i characters can be continued),
+   and EndOfLine exactly on a viable, incomplete input.  viable p := exists q, Lang (p ++ q). *)
+Theorem C05_character_is_first_non_viable_prefix : forall s i h, rd s = (VChar i, h) ->
+  i < length s /\ viable (firstn i s) /\ ~ viable (firstn (S i) s).
+Proof. exact P.Proofs.LangFinal.C05_character. Qed.
+Theorem C05_end_of_line_is_viable_incomplete_input : forall s h, rd s = (VEol, h) -> viable s /\ ~ Lang s.
+Proof. exact P.Proofs.LangFinal.C05_end_of_line. Qed.
+
 Print Assumptions C05_reported_index_is_last_inspected_position.
 Print Assumptions C05_token_error_positions_as_documented.
+Print Assumptions C05_character_is_first_non_viable_prefix.
+Print Assumptions C05_end_of_line_is_viable_incomplete_input.
